@@ -16,7 +16,10 @@ extern const Scenario g_scn_auth;
 extern const Scenario g_scn_entropy;
 #endif
 #ifdef HAVE_SCN_BYZ
-extern const Scenario g_scn_byz, g_scn_http;
+extern const Scenario g_scn_byz;
+#endif
+#ifdef HAVE_SCN_HTTP
+extern const Scenario g_scn_http;
 #endif
 #ifdef HAVE_SCN_THREADS
 extern const Scenario g_scn_threads;
@@ -37,7 +40,10 @@ static const Scenario *g_all[] = {
 	&g_scn_entropy,
 #endif
 #ifdef HAVE_SCN_BYZ
-	&g_scn_byz, &g_scn_http,
+	&g_scn_byz,
+#endif
+#ifdef HAVE_SCN_HTTP
+	&g_scn_http,
 #endif
 #ifdef HAVE_SCN_THREADS
 	&g_scn_threads,
